@@ -70,6 +70,8 @@ pub struct Observed {
     pub syscalls: u32,
     pub fired: Vec<String>,
     pub problems: Vec<(String, String)>, // (class, detail)
+    /// files the operation created or changed (path -> digest), when it reported success
+    pub written: Option<BTreeMap<String, String>>,
 }
 
 fn apply_store_fault(sb: &Sandbox, f: &StoreFault) -> bool {
@@ -186,7 +188,8 @@ pub fn execute(sb: &Sandbox, base: &Files, op: &OpSpec, plan: &FaultPlan) -> Obs
     announce(op, plan);
     sb.materialise(base);
     apply_store_fault(sb, &plan.store);
-    let texts: Vec<Vec<u8>> = sb.snapshot().into_iter().filter(|(k, _)| k.ends_with(".gom")).map(|(_, v)| v).collect();
+    let before = sb.snapshot();
+    let texts: Vec<Vec<u8>> = before.iter().filter(|(k, _)| k.ends_with(".gom")).map(|(_, v)| v.clone()).collect();
     let args = expand(sb, &op.args);
     let res = ops::goml(sb, &plan.spec, args);
     let mut counts: BTreeMap<&'static str, u32> = BTreeMap::new();
@@ -231,7 +234,49 @@ pub fn execute(sb: &Sandbox, base: &Files, op: &OpSpec, plan: &FaultPlan) -> Obs
         }
         Exit::Killed => {}
     }
-    Observed { exit: res.exit, counts, syscalls: res.syscalls, fired: res.fired, problems }
+    // a reported success is a promise about the store: what check / build / link wrote
+    let mut written = None;
+    if matches!(res.exit, Exit::Ok) && matches!(res.value, Some(CliOut::Done)) {
+        let after = sb.snapshot();
+        let mut w = BTreeMap::new();
+        for (k, v) in &after {
+            if before.get(k) != Some(v) {
+                w.insert(k.clone(), sha(sb.normalise(&String::from_utf8_lossy(v)).as_bytes()));
+            }
+        }
+        if let Some(f) = res.fired.iter().find(|f| f.starts_with("write:E")) {
+            problems.push((
+                "success-after-failed-write".to_string(),
+                format!("a write to the store failed ({f}) and `goml {}` still reported success", op.entry),
+            ));
+        }
+        written = Some(w);
+    }
+    Observed { exit: res.exit, counts, syscalls: res.syscalls, fired: res.fired, problems, written }
+}
+
+/// `execute`, plus the comparison with what the fault-free run of the same operation wrote: under
+/// transient I/O faults alone (no stored byte changed, no lie about which files exist) an operation
+/// that reports success must have written exactly what it writes without faults.
+pub fn execute_vs(sb: &Sandbox, base: &Files, op: &OpSpec, plan: &FaultPlan, clean_written: Option<&BTreeMap<String, String>>) -> Observed {
+    let mut obs = execute(sb, base, op, plan);
+    if plan.store != StoreFault::None {
+        return obs;
+    }
+    let visible_world_changed = obs.fired.iter().any(|f| f.starts_with("stat:") || f.contains("ENOENT") || f.contains("ENOTDIR"));
+    if visible_world_changed {
+        return obs;
+    }
+    if let (Some(w), Some(cw)) = (&obs.written, clean_written) {
+        if w != cw && !obs.fired.is_empty() {
+            let diff: std::collections::BTreeSet<&String> = w.keys().chain(cw.keys()).filter(|k| w.get(*k) != cw.get(*k)).collect();
+            obs.problems.push((
+                "success-with-different-output".to_string(),
+                format!("`goml {}` reported success under {:?} but wrote something else than without faults: {:?}", op.entry, obs.fired, diff),
+            ));
+        }
+    }
+    obs
 }
 
 const OPEN_ERRNOS: [i32; 6] = [libc::EIO, libc::EACCES, libc::ENOENT, libc::EISDIR, libc::ELOOP, libc::EMFILE];
@@ -547,8 +592,8 @@ fn mk_violation(case: &Case, base: &Files, op: &OpSpec, plan: &FaultPlan, class:
 }
 
 /// Shrink a failing plan: drop faults one by one while the same problem class persists.
-fn shrink_plan(sb: &Sandbox, base: &Files, op: &OpSpec, plan: &FaultPlan, class: &str) -> FaultPlan {
-    let still = |p: &FaultPlan| execute(sb, base, op, p).problems.iter().any(|(c, _)| c == class);
+fn shrink_plan(sb: &Sandbox, base: &Files, op: &OpSpec, plan: &FaultPlan, class: &str, clean_written: Option<&BTreeMap<String, String>>) -> FaultPlan {
+    let still = |p: &FaultPlan| execute_vs(sb, base, op, p, clean_written).problems.iter().any(|(c, _)| c == class);
     let mut cur = plan.clone();
     if cur.store != StoreFault::None {
         let mut t = cur.clone();
@@ -668,7 +713,7 @@ fn check_case(sb: &Sandbox, opts: &Opts, idx: usize, case: &Case, per_op: usize,
             }
         }
         for (pi, plan) in plans.iter().enumerate() {
-            let obs = execute(sb, &base, op, plan);
+            let obs = execute_vs(sb, &base, op, plan, baseline.written.as_ref());
             r.runs += 1;
             r.digest = sha(format!("{}{}{:?}{}", r.digest, obs.exit.class(), obs.counts, obs.syscalls).as_bytes());
             for f in &obs.fired {
@@ -693,6 +738,9 @@ fn check_case(sb: &Sandbox, opts: &Opts, idx: usize, case: &Case, per_op: usize,
             if plan.spec.chunk > 0 {
                 *r.fired.entry("read:chunked".to_string()).or_insert(0) += 1;
             }
+            if obs.written.is_some() && plan.store == StoreFault::None && !obs.fired.is_empty() {
+                *r.probes.entry("success_under_transient_faults_output_compared_with_fault_free").or_insert(0) += 1;
+            }
             match &obs.exit {
                 Exit::Ok => *r.probes.entry("faulty_op_still_succeeded").or_insert(0) += 1,
                 Exit::Err(_) => *r.probes.entry("faulty_op_failed_with_message").or_insert(0) += 1,
@@ -701,7 +749,7 @@ fn check_case(sb: &Sandbox, opts: &Opts, idx: usize, case: &Case, per_op: usize,
             }
             r.fingerprints.push(format!("{}:{}:{}", &pd[..10], oi, sha(format!("{:?}", plan).as_bytes())[..12].to_string()));
             if let Some((class, detail)) = obs.problems.first() {
-                let small = shrink_plan(sb, &base, op, plan, class);
+                let small = shrink_plan(sb, &base, op, plan, class, baseline.written.as_ref());
                 r.violations.push(mk_violation(case, &base, op, &small, class, detail));
                 if r.violations.len() > 6 {
                     return r;
@@ -733,7 +781,7 @@ pub fn run(opts: &Opts) -> i32 {
     let mut ev = Evidence::new(
         PROP,
         "fault_enumeration",
-        "worlds = repository corpus + generated multi-package projects (a fifth ill-typed), each with a genuine artifact set built beforehand; operations = `run`, and `check`/`build` of every package, and `link`; quick: per operation a fault-free run plus N seeded fault plans of 1-3 faults (errno on the n-th open/read/write/opendir/readdir/stat/mkdir, short reads/writes, chunked I/O, ENOSPC mid-file, stat lies, crash at syscall k, and stored-byte faults: bit flip, truncation, garbage, vanished file, directory instead of file, replaced or swapped file, single-field JSON corruption, foreign-version artifact); thorough: additionally every single-syscall fault position x every action of the catalogue and every crash point of every operation (exhaustive for that sub-space). distinct = distinct (project, operation, fault plan); all are non-trivial (at least one injected fault) except the fault-free baselines",
+        "worlds = repository corpus + generated multi-package projects (a fifth ill-typed), each with a genuine artifact set built beforehand; operations = `run`, and `check`/`build` of every package, and `link`; quick: per operation a fault-free run plus N seeded fault plans of 1-3 faults (errno on the n-th open/read/write/opendir/readdir/stat/mkdir, short reads/writes, chunked I/O, ENOSPC mid-file, stat lies, crash at syscall k, and stored-byte faults: bit flip, truncation, garbage, vanished file, directory instead of file, replaced or swapped file, single-field JSON corruption, foreign-version artifact); thorough: additionally every single-syscall fault position x every action of the catalogue and every crash point of every operation (exhaustive for that sub-space). oracle: no panic / abort / hang, a failure carries a message, a rejection carries >= 1 error diagnostic with stage and message, positions lie inside a source text, a success is never reported after a failed write to the store, and under transient faults alone a success wrote exactly what the fault-free run writes; distinct = distinct (project, operation, fault plan); all are non-trivial (at least one injected fault) except the fault-free baselines",
     );
     ev.components_real = harness::REAL_COMPONENTS.iter().map(|s| s.to_string()).collect();
     ev.components_stub = harness::STUB_COMPONENTS.iter().map(|s| s.to_string()).collect();
@@ -828,7 +876,9 @@ pub fn replay(file: &Value) -> bool {
         println!("replayed: the operation {} in a fresh process", if verdict { "did not survive" } else { "survived" });
         return verdict;
     }
-    let obs = execute(&sb, &base, &op, &plan);
+    let clean = FaultPlan { store: StoreFault::None, spec: ProcSpec { entropy: plan.spec.entropy, readdir: plan.spec.entropy, ..Default::default() } };
+    let baseline = execute(&sb, &base, &op, &clean);
+    let obs = execute_vs(&sb, &base, &op, &plan, baseline.written.as_ref());
     for (c, d) in &obs.problems {
         println!("replayed: {c}: {}", d.chars().take(300).collect::<String>());
     }
